@@ -27,7 +27,7 @@ def models(tier):
         hold = copy.deepcopy(BASE)
         hold["node"]["retransmit_queue_size"] = W
         out.append(monitors.ScenarioModel(f"held-answers-window-{W}", hold,
-                                          [("m", 0, n) for n in reqs[:6]] + [("ans", 0), ("ans", 1), ("ans", 2)], MONS, max_socks=1, prelude=PRE))
+                                          [("m", 0, n) for n in reqs[:6]] + [("ans", 0), ("ans", 1), ("ans", 2), ("tick", 45)], MONS, max_socks=1, prelude=PRE))
     # a second deterministic scheduling policy (the I/O thread runs only when nothing else can)
     if True:
         out = monitors.with_io_last(out)
@@ -136,7 +136,7 @@ def run(tier):
     rep.cov.update({"states": tot["states"], "transitions": tot["transitions"], "traces_validated_against_impl": tot["transitions"] + tot["plain_transitions"],
                     "max_depth": tot["max_depth"], "states_without_dedup": tot["plain_states"],
                     "explanation": "BFS over request sequences from 2 origin hosts, T in {0,1}, end-to-end ids from a pool of 3, answered at once "
-                                   "(windows 1..3/4) or held and answered in any order (windows 1..2); reference = per-origin list of transmitted "
+                                   "(windows 1..3/4) or held and answered in any order, also 45 s later (windows 1..2); reference = per-origin list of transmitted "
                                    "answers, judged only where counting with and without the node's own rejections agrees"})
     rep.assumptions += ["hop-by-hop ids unique per request; all requests arrive on one ready connection (relay scenario)"]
     return rep.finish()
